@@ -15,6 +15,7 @@ AConnect(pre, post, ty) == Connect(pre, post, ty) /\ H([op |-> "connect", pre |-
 ASetW(x, ev) == SetW(x, ev) /\ H([op |-> "setw", x |-> x, ev |-> ev])
 ASetS(x, ev) == SetS(x, ev) /\ H([op |-> "sets", x |-> x, ev |-> ev])
 ARecordE(what, ev) == RecordE(what, ev) /\ H([op |-> "record", what |-> what, ev |-> ev])
+ADelRecE(ev) == DelRecE(ev) /\ H([op |-> "delrec", ev |-> ev])
 AClampE(ev) == ClampE(ev) /\ H([op |-> "clamp", ev |-> ev])
 AStim(row) == Stim(row) /\ H([op |-> "stim", row |-> row])
 AIntegrate == Integrate /\ UNCHANGED hist
@@ -24,6 +25,7 @@ Next ==
   \/ \E ev \in EdgeViews \cup RowViews : ASetS(3, ev)
   \/ \E what \in {"s", "i"}, ev \in EdgeViews : ARecordE(what, ev)
   \/ \E ev \in EdgeViews : AClampE(ev)
+  \/ \E ev \in DelRecViews : ADelRecE(ev)
   \/ \E row \in {1, 5} : AStim(row)
   \/ AIntegrate
 NetInit == Init /\ hist = <<>>
@@ -31,6 +33,7 @@ OpCode(h) == CASE h.op = "connect" -> 1 + h.pre * 7 + h.post * 3 + (IF h.ty = "P
                [] h.op = "setw" -> 41 + h.x * 5 + h.ev.k + (IF h.ev.kind = "type" THEN 0 ELSE IF h.ev.kind = "rows" THEN 23 ELSE 2) + (IF h.ev.ty = "P" THEN 0 ELSE 11)
                [] h.op = "sets" -> 73 + h.ev.k + (IF h.ev.kind = "type" THEN 0 ELSE IF h.ev.kind = "rows" THEN 19 ELSE 2) + (IF h.ev.ty = "P" THEN 0 ELSE 11)
                [] h.op = "record" -> 101 + (IF h.what = "s" THEN 0 ELSE 17) + h.ev.k + (IF h.ev.kind = "type" THEN 0 ELSE 2) + (IF h.ev.ty = "P" THEN 0 ELSE 11)
+               [] h.op = "delrec" -> 201 + h.ev.k * 3 + (IF h.ev.kind = "type" THEN 0 ELSE IF h.ev.kind = "rows" THEN 29 ELSE 2) + (IF h.ev.ty = "P" THEN 0 ELSE 11)
                [] h.op = "clamp" -> 151 + h.ev.k + (IF h.ev.kind = "type" THEN 0 ELSE 2) + (IF h.ev.ty = "P" THEN 0 ELSE 11)
                [] h.op = "stim" -> 181 + h.row
 RECURSIVE HashSeq(_, _)
